@@ -184,6 +184,8 @@ impl<'a, T: Eq + Hash + Clone> UniqueTable<'a, T> for BackedRobinhoodTable<'a, T
         let mut hasher = FxHasher::default();
         elem.hash(&mut hasher);
         let hash = hasher.finish();
+        #[cfg(feature = "verif")]
+        let hash = crate::verif::weaken_unique_hash(hash);
         self.get_or_insert_by_hash(hash, elem, false)
     }
 }
@@ -217,6 +219,8 @@ impl<'a, T: Eq + Hash + Clone> BackedRobinhoodTable<'a, T> {
                         self.hits += 1;
                         return found;
                     }
+                    #[cfg(feature = "verif")]
+                    crate::verif::note_unique_hash_clash();
                 }
 
                 // not equal; begin probing
